@@ -634,9 +634,9 @@ func Int2BV(a *Term, w int) *Term {
 	// symbolic conversion: exact for small non-negative values (the shift counts and indices that occur
 	// in the code), an uninterpreted function elsewhere (over-approximation, avoids the solver's int2bv cliff)
 	r := App(fmt.Sprintf("int2bv.%d", w), BVSort(w), a)
-	lim := 16
+	lim := 64
 	if w < 8 {
-		lim = 1 << uint(w) - 1
+		lim = 1<<uint(w) - 1
 	}
 	for k := lim; k >= 0; k-- {
 		r = Ite(Eq(a, IntC(int64(k))), BVC(uint64(k), w), r)
@@ -942,7 +942,67 @@ func Script(asserts []*Term, getValues []*Term, logic string, timeoutMs int) str
 				fmt.Fprintf(&sb, "(%s %s)", quoteSym(t.Args[i].Op), t.Args[i].Sort)
 			}
 			sb.WriteString(") ")
-			sb.WriteString(emit(t.Args[t.NBind], true))
+			// shared sub-terms that mention bound variables are bound by nested lets (keeps the text linear in the DAG)
+			body := t.Args[t.NBind]
+			local := map[int]int{}
+			var cnt func(x *Term)
+			cnt = func(x *Term) {
+				if !hb(x) || x.IsBound {
+					return
+				}
+				if _, named := pr.named[x.ID]; named {
+					return
+				}
+				local[x.ID]++
+				if local[x.ID] > 1 {
+					return
+				}
+				for _, a := range x.Args {
+					cnt(a)
+				}
+			}
+			cnt(body)
+			var lets []*Term
+			doneLet := map[int]bool{}
+			var order func(x *Term)
+			order = func(x *Term) {
+				if !hb(x) || x.IsBound || doneLet[x.ID] {
+					return
+				}
+				if _, named := pr.named[x.ID]; named {
+					return
+				}
+				doneLet[x.ID] = true
+				if x.Op == "forall" || x.Op == "exists" {
+					// inner quantifiers manage their own sharing
+					if local[x.ID] > 1 && x != body {
+						lets = append(lets, x)
+					}
+					return
+				}
+				for _, a := range x.Args {
+					order(a)
+				}
+				if local[x.ID] > 1 && x != body {
+					lets = append(lets, x)
+				}
+			}
+			order(body)
+			var added []int
+			for _, lt := range lets {
+				txt := emit(lt, true)
+				name := fmt.Sprintf("$b%d", lt.ID)
+				fmt.Fprintf(&sb, "(let ((%s %s)) ", name, txt)
+				pr.named[lt.ID] = name
+				added = append(added, lt.ID)
+			}
+			sb.WriteString(emit(body, true))
+			for range lets {
+				sb.WriteString(")")
+			}
+			for _, id := range added {
+				delete(pr.named, id)
+			}
 			sb.WriteString(")")
 			s = sb.String()
 		case t.Op == "constarr":
